@@ -8,7 +8,7 @@ FILES = ["cspuz/problem_serializer.py"]
 
 def conditions(tier):
     q = tier == "quick"
-    T = 60 if q else 600
+    T = 100 if q else 900
     cs = []
     # value side: leaves
     cs += [C(HF, "HexInt", "h_value_int", t=T), C(HF, "OneOf_SpacesHex", "h_value_int", t=T), C(HF, "IntSpaces", "h_value_int", t=T),
